@@ -1,5 +1,6 @@
 """Code related to formatting"""
 
+import ast
 import textwrap
 
 import black
@@ -44,7 +45,18 @@ def collapse_trailing_parentheses(source: str) -> str:
     Returns:
         str: _description_
     """
-    return compactify.format_code(source)
+    collapsed = compactify.format_code(source)
+    # compactify works on text, and may take lines of a multi-line string for code
+    try:
+        tree = ast.dump(ast.parse(textwrap.dedent(source)))
+    except SyntaxError:
+        return collapsed
+    try:
+        collapsed_tree = ast.dump(ast.parse(textwrap.dedent(collapsed)))
+    except SyntaxError:
+        return source
+
+    return collapsed if collapsed_tree == tree else source
 
 
 def _inspect_indentsize(line: str) -> int:
